@@ -25,6 +25,19 @@ UTT_TABLES = [
     ["10", "9", "utt-a", "utt_b", "zz"],
     ["A-1", "a", "b.c", "sw02001", "sw02001-B"],
 ]
+# trn only: a token is any string free of the format's delimiters (the blank U+0020, braces / slash standing alone,
+# line breaks, the trailing "(id)") that neither begins nor ends with white space (Transcripts.tla, "What a TOKEN is").
+# White space other than the blank INSIDE a token is part of it: no-break space ("10 000" typeset with U+00A0), tab,
+# ideographic space U+3000, thin space U+2009.  (Not for ctm / TextGrid / token maps: their fields are split on any
+# white space or quoted, a different notion of token.)
+TRN_TOKEN_TABLES = TOKEN_TABLES + [
+    {0: "<fill>", 1: "10\u00a0000", 2: "a\tb", 3: "x\u3000y"},
+    {0: "sil", 1: "et\u2009al.", 2: "1\u00a0\u00bd", 3: "c\td\u00a0e"},
+]
+for _t in TRN_TOKEN_TABLES:
+    for _v in _t.values():
+        if not _v or _v != _v.strip() or any(c in _v for c in " \n\r(){}/") or len(set(_t.values())) != len(_t):
+            raise MachineryError("not a table of distinct trn tokens: %r" % (_t,))
 TRN_UTT_TABLES = UTT_TABLES + [["my utt", "2", "x.y", "u-4", "u 5"]]  # trn: ids may hold spaces
 WAVE_TABLES = [["w1", "w2", "w3"], ["940328", "sw02001", "sw02005"]]
 CHAN_TABLES = [["A", "B"], ["1", "2"]]
